@@ -127,34 +127,48 @@ func init() {
 		"fmt.Sprintf":           func(fr *frame, a []value) (value, bool) { return sprintf(fr, a[0], a[1].([]value)), true },
 		"fmt.Sprint":            func(fr *frame, a []value) (value, bool) { return sprint(fr, a[0].([]value), false), true },
 		"fmt.Sprintln":          func(fr *frame, a []value) (value, bool) { return sprint(fr, a[0].([]value), true), true },
-		"fmt.Errorf":            func(fr *frame, a []value) (value, bool) { return fr.i.mkError(sprintf(fr, a[0], a[1].([]value))), true },
+		"fmt.Errorf":            func(fr *frame, a []value) (value, bool) { return errorf(fr, a[0], a[1].([]value)), true },
+		"errors.Is":             func(fr *frame, a []value) (value, bool) { return errorsIs(fr, a[0], a[1], 0), true },
+		"errors.Unwrap":         func(fr *frame, a []value) (value, bool) { return errorsUnwrap(fr, a[0]), true },
 		"errors.New":            func(fr *frame, a []value) (value, bool) { return fr.i.mkError(a[0]), true },
 		"fmt.Fprintf":           fprintf,
 		"fmt.Printf":            func(fr *frame, a []value) (value, bool) { return tuple{0, iface{}}, true },
 		"fmt.Println":           func(fr *frame, a []value) (value, bool) { return tuple{0, iface{}}, true },
 		"fmt.Print":             func(fr *frame, a []value) (value, bool) { return tuple{0, iface{}}, true },
 		"time.Now":              func(fr *frame, a []value) (value, bool) { return zero(fr.fn.Signature.Results().At(0).Type()), true },
-		// timers never fire inside a bounded scenario: NewTimer/After hand out a channel
-		// nobody sends on (the 10 s "still waiting" timers of please only log)
+		// timers: by default they never fire inside a bounded scenario (the 10 s
+		// "still waiting" timers of please only log). With Options.QuiescentTimers
+		// time advances only when nothing else can run: the armed timer with the
+		// shortest duration fires when every goroutine is blocked (see sched.go).
 		"time.NewTimer": func(fr *frame, a []value) (value, bool) {
-			fr.i.run.stubs["time.NewTimer (never fires)"]++
 			pt := fr.fn.Signature.Results().At(0).Type().Underlying().(*types.Pointer)
 			st := pt.Elem().Underlying().(*types.Struct)
 			v := zero(pt.Elem()).(structure)
+			var ch *gochan
+			var tick value
 			for k := 0; k < st.NumFields(); k++ {
 				if st.Field(k).Name() == "C" {
-					v[k] = makeChan(fr, 1)
+					ch = makeChan(fr, 1)
+					v[k] = ch
+					tick = zero(st.Field(k).Type().Underlying().(*types.Chan).Elem())
 				}
 			}
 			var cell value = v
+			fr.i.run.scheduler().newTimer(&cell, ch, tick, asInt64(a[0]))
 			return &cell, true
 		},
 		"time.After": func(fr *frame, a []value) (value, bool) {
-			fr.i.run.stubs["time.After (never fires)"]++
-			return makeChan(fr, 1), true
+			ch := makeChan(fr, 1)
+			tick := zero(fr.fn.Signature.Results().At(0).Type().Underlying().(*types.Chan).Elem())
+			fr.i.run.scheduler().newTimer(nil, ch, tick, asInt64(a[0]))
+			return ch, true
 		},
-		"(*time.Timer).Stop":  func(fr *frame, a []value) (value, bool) { return true, true },
-		"(*time.Timer).Reset": func(fr *frame, a []value) (value, bool) { return true, true },
+		"(*time.Timer).Stop": func(fr *frame, a []value) (value, bool) {
+			return fr.i.run.scheduler().stopTimer(a[0].(*value)), true
+		},
+		"(*time.Timer).Reset": func(fr *frame, a []value) (value, bool) {
+			return fr.i.run.scheduler().resetTimer(a[0].(*value), asInt64(a[1])), true
+		},
 		"time.Since":          func(fr *frame, a []value) (value, bool) { return int64(0), true },
 		"time.Sleep":            func(fr *frame, a []value) (value, bool) { fr.i.run.scheduler().yield("sleep"); return nil, true },
 		"github.com/cespare/xxhash/v2.Sum64String": func(fr *frame, a []value) (value, bool) {
@@ -411,6 +425,121 @@ func (i *interpreter) mkError(msg value) value {
 		return iface{t: errorType, v: msg}
 	}
 	return iface{t: i.errorStringPtr, v: &cell}
+}
+
+// errorf is fmt.Errorf: with a single %w verb whose operand is an error the
+// result is fmt's own *wrapError (so errors.Is/Unwrap see through it);
+// otherwise an *errors.errorString.
+func errorf(fr *frame, format value, args []value) value {
+	msg := sprintf(fr, format, args)
+	f, ok := format.(string)
+	if !ok || strings.Count(f, "%w") != 1 {
+		return fr.i.mkError(msg)
+	}
+	// which operand does %w consume?
+	argi := 0
+	for i := 0; i+1 < len(f); i++ {
+		if f[i] != '%' {
+			continue
+		}
+		j := i + 1
+		for j < len(f) && strings.IndexByte("+-# 0123456789.", f[j]) >= 0 {
+			j++
+		}
+		if j >= len(f) {
+			break
+		}
+		if f[j] == '%' {
+			i = j
+			continue
+		}
+		if f[j] == 'w' {
+			break
+		}
+		argi++
+		i = j
+	}
+	if argi >= len(args) {
+		return fr.i.mkError(msg)
+	}
+	wrapped, ok := args[argi].(iface)
+	if !ok || wrapped.t == nil {
+		return fr.i.mkError(msg)
+	}
+	p := fr.i.prog.ImportedPackage("fmt")
+	if p == nil || p.Type("wrapError") == nil {
+		return fr.i.mkError(msg)
+	}
+	var cell value = structure{msg, wrapped}
+	return iface{t: types.NewPointer(p.Type("wrapError").Type()), v: &cell}
+}
+
+// errMethod finds the method `name` of the dynamic type of err.
+func errMethod(fr *frame, err iface, name string) (*ssa.Function, *types.Signature) {
+	ms := fr.i.prog.MethodSets.MethodSet(err.t)
+	for k := 0; k < ms.Len(); k++ {
+		sel := ms.At(k)
+		if sel.Obj().Name() != name || !sel.Obj().Exported() {
+			continue
+		}
+		if f := fr.i.prog.MethodValue(sel); f != nil {
+			return f, sel.Type().(*types.Signature)
+		}
+	}
+	return nil, nil
+}
+
+func errorsUnwrap(fr *frame, e value) value {
+	err, ok := e.(iface)
+	if !ok || err.t == nil {
+		return iface{}
+	}
+	if f, sig := errMethod(fr, err, "Unwrap"); f != nil && sig.Params().Len() == 0 && sig.Results().Len() == 1 {
+		if _, isSlice := sig.Results().At(0).Type().Underlying().(*types.Slice); !isSlice {
+			return call(fr.i, fr, token.NoPos, f, []value{err.v})
+		}
+	}
+	return iface{}
+}
+
+// errorsIs is errors.Is over the interpreter's values.
+func errorsIs(fr *frame, e, target value, depth int) value {
+	err, ok := e.(iface)
+	tgt, _ := target.(iface)
+	if !ok || err.t == nil || tgt.t == nil {
+		return ok && err.t == nil && tgt.t == nil
+	}
+	for ; depth < 64; depth++ {
+		if types.Comparable(tgt.t) && types.Identical(err.t, tgt.t) {
+			if r, isBool := equals(nil, err, tgt), true; isBool && r {
+				return true
+			}
+		}
+		if f, sig := errMethod(fr, err, "Is"); f != nil && sig.Params().Len() == 1 && sig.Results().Len() == 1 {
+			if b, isBool := call(fr.i, fr, token.NoPos, f, []value{err.v, tgt}).(bool); isBool && b {
+				return true
+			}
+		}
+		f, sig := errMethod(fr, err, "Unwrap")
+		if f == nil || sig.Params().Len() != 0 || sig.Results().Len() != 1 {
+			return false
+		}
+		res := call(fr.i, fr, token.NoPos, f, []value{err.v})
+		if list, isList := res.([]value); isList {
+			for _, x := range list {
+				if b, _ := errorsIs(fr, x, tgt, depth+1).(bool); b {
+					return true
+				}
+			}
+			return false
+		}
+		next, isIface := res.(iface)
+		if !isIface || next.t == nil {
+			return false
+		}
+		err = next
+	}
+	return false
 }
 
 // stringify renders an interface-boxed argument for %v / %s.
